@@ -83,7 +83,7 @@ def run(ctx):
         for lab, call, hist in (pos_calls(c) if c["mode"] == "pos" else clash_calls(c)):
             jobs.append({"id": len(jobs), "calls": [call]})
             meta.append((ci, lab, hist))
-    res = run_api(ctx, exe, jobs, "ctor", nproc=12)
+    res = run_api(ctx, exe, vary_builder_order(jobs, ctx.seed), "ctor", nproc=12)
     nok = 0
     for j, (ci, lab, hist) in zip(jobs, meta):
         c = cases[ci]
